@@ -76,6 +76,7 @@ def run(repo, rep, tier):
     record_staged_is_read_only(repo, rep)
     staging_keywords_cannot_collide(repo, rep)
     toyaml_returns_plain_values(repo, rep)
+    maxlen_is_an_int(repo, rep)
     from .c02 import operation_envelopes_agree
     operation_envelopes_agree(repo, rep, 'C19.R10', 'finally')
     ops = operations(repo)
@@ -959,3 +960,63 @@ def toyaml_returns_plain_values(repo, rep):
     if r14.sites < 15:
         raise AnalysisError('C19.R14: only %d return statements of toyaml '
                             'judged' % r14.sites)
+
+
+def maxlen_is_an_int(repo, rep):
+    """C19.R15: the truncation lengths of the log recorder are integers or
+    None.  api_maxlen / http_maxlen are compared with len(...) while an
+    operation is in progress; a detail level name ('all', 'paths',
+    'summary') stored there makes that comparison raise TypeError - the
+    operation fails only because logging is configured.  Every value stored
+    into a *_maxlen attribute must therefore be None, an int constant, or an
+    expression that the same statement knows to be an int
+    (isinstance(<that expression>, int))."""
+    from ..cfg import stmt_facts, expr_guards
+    r15 = rep.rule('C19.R15', 'values stored in the *_maxlen attributes of '
+                   'the log recorder are None or known ints')
+    lr = repo.cls(REC, 'LogOperationRecorder')
+    n = 0
+    for name, f in sorted(lr.methods.items()):
+        sf = stmt_facts(f.node)
+        for st, (fs, _t) in sf.items():
+            if not (isinstance(st, ast.Assign) and len(st.targets) == 1 and
+                    isinstance(st.targets[0], ast.Attribute) and
+                    st.targets[0].attr.endswith('_maxlen')):
+                continue
+
+            def leaves(e, guards):
+                if isinstance(e, ast.IfExp):
+                    yield from leaves(e.body, guards + [(e.test, True)])
+                    yield from leaves(e.orelse, guards + [(e.test, False)])
+                else:
+                    yield e, guards
+            for v, guards in leaves(st.value, []):
+                n += 1
+                r15.sites += 1
+                r15.functions.add(f.fq)
+                if isinstance(v, ast.Constant) and (
+                        v.value is None or isinstance(v.value, int)):
+                    r15.ob(True, '%s|%s' % (name, norm(st, 50)))
+                    continue
+                known = False
+                for t, pol in list(fs) + guards:
+                    if pol and isinstance(t, ast.Call) and \
+                            dotted(t.func) == 'isinstance' and \
+                            len(t.args) == 2 and \
+                            norm(t.args[0]) == norm(v) and \
+                            norm(t.args[1]) in ('int', '(int,)'):
+                        known = True
+                r15.ob(known, '%s|%s' % (name, norm(st, 50)),
+                       {'value': norm(v, 40)})
+                if not known:
+                    rep.finding(r15, f.qualname, norm(st, 80),
+                                'maxlen-not-int', REC, st.lineno,
+                                '%s is stored in %s without a test that '
+                                '*this* value is an int: a detail level '
+                                'name ends up as the maximum length, and '
+                                'the length comparison in stage_http_* / '
+                                'stage_pywbem_* raises TypeError inside '
+                                'every operation'
+                                % (norm(v, 40), norm(st.targets[0])))
+    if n < 2:
+        raise AnalysisError('C19.R15: only %d stores into *_maxlen' % n)
